@@ -1,6 +1,7 @@
 (** The inductive invariant of the C07 model, and its preservation by every operation. *)
 From Coq Require Import NArith List Bool Lia ZifyN ZifyBool.
 From RsM Require Import Model.Lifecycle Model.LifecycleSpec Proofs.LifecycleFacts.
+(* -- *)
 Import ListNotations.
 Open Scope N_scope.
 
